@@ -29,6 +29,9 @@ WALKED = ("run", "mpe", "mpe_from_plot")
 MAXLEN = 160
 
 
+DEFAULTS = {}  # callee -> {parameter: source text of its LITERAL default}
+
+
 def _sig(functions_dir):
     """callee -> list of parameter names"""
     out = {}
@@ -38,6 +41,11 @@ def _sig(functions_dir):
             if isinstance(n, ast.FunctionDef):
                 a = n.args
                 out[f"{mod}.{n.name}"] = [x.arg for x in a.posonlyargs + a.args] + [x.arg for x in a.kwonlyargs]
+                pos = a.posonlyargs + a.args
+                dflt = {x.arg: d for x, d in zip(pos[len(pos) - len(a.defaults):], a.defaults)} if a.defaults else {}
+                dflt.update({x.arg: d for x, d in zip(a.kwonlyargs, a.kw_defaults) if d is not None})
+                DEFAULTS[f"{mod}.{n.name}"] = {k: ast.unparse(v) for k, v in dflt.items() if isinstance(v, ast.Constant) or
+                                               (isinstance(v, ast.UnaryOp) and isinstance(v.operand, ast.Constant))}
     return out
 
 
@@ -178,7 +186,12 @@ class Walker:
         for kw in call.keywords:
             bind.append((kw.arg if kw.arg is not None else "**", canon(kw.value, env)))
         self.pos += 1
-        self.sites.append({"cls": self.cls, "method": self.method, "callee": callee, "idx": k, "bind": bind, "ret": targets, "pos": self.pos})
+        # parameters of the callee with a literal default that this site leaves alone or binds to exactly that literal: writing
+        # a default out (or leaving it out) is the same call; the set comparisons of the obligations ignore these parameters
+        dfl = DEFAULTS.get(callee, {})
+        bd = dict(bind)
+        dflt = [p_ for p_, d_ in dfl.items() if p_ not in bd or bd[p_] == d_]
+        self.sites.append({"cls": self.cls, "method": self.method, "callee": callee, "idx": k, "bind": bind, "ret": targets, "pos": self.pos, "dflt": dflt})
         return callee, k
 
     def helper_of(self, call):
@@ -819,7 +832,7 @@ def translate(repo):
                                         "decorators": [canon(d, {}) for d in m.decorator_list]})
     out = ["/-! GENERATED by harness/translate_wiring.py from /repo/src/pyoma2/algorithms — do not edit. -/", "namespace PV.Wiring.Gen", "",
            "structure Site where", "  cls : String", "  method : String", "  callee : String", "  idx : Nat", "  pos : Nat", "  bind : List (String × String)",
-           "  ret : List String", "deriving DecidableEq, Repr", "",
+           "  ret : List String", "  dflt : List String := []", "deriving DecidableEq, Repr", "",
            "structure Store where", "  cls : String", "  method : String", "  target : String", "  value : String", "  pos : Nat", "deriving DecidableEq, Repr", "",
            "structure ClassInfo where", "  name : String", "  module : String", "  bases : List String", "  own : List String",
            "  attrs : List (String × String)", "  extras : List String", "deriving DecidableEq, Repr", "",
@@ -830,7 +843,7 @@ def translate(repo):
     for s in sites:
         b = ", ".join(f"({lean_str(k)}, {lean_str(v)})" for k, v in s["bind"])
         r = ", ".join(lean_str(x) for x in s["ret"])
-        rows.append(f"  {{ cls := {lean_str(s['cls'])}, method := {lean_str(s['method'])}, callee := {lean_str(s['callee'])}, idx := {s['idx']}, pos := {s['pos']},\n    bind := [{b}],\n    ret := [{r}] }}")
+        rows.append(f"  {{ cls := {lean_str(s['cls'])}, method := {lean_str(s['method'])}, callee := {lean_str(s['callee'])}, idx := {s['idx']}, pos := {s['pos']},\n    bind := [{b}],\n    ret := [{r}], dflt := [{', '.join(lean_str(x) for x in s.get('dflt', []))}] }}")
     out.append(",\n".join(rows) + "]")
     out.append("")
     out.append("def stores : List Store := [")
